@@ -51,6 +51,9 @@ type TxSpec struct {
 	Name string `json:"name,omitempty"`
 	URL  string `json:"url,omitempty"`
 
+	// CheckOnly: the transaction is submitted to CheckTx at its position in the block and never delivered
+	CheckOnly bool `json:"checkOnly,omitempty"`
+
 	Tag string `json:"tag,omitempty"`
 }
 
